@@ -233,6 +233,14 @@ static void blk_composite(void) {
 	/* algorithm identifiers: every OID known to x509_alg through its encoder/decoder pair */
 	static const int DG[] = { OID_sm3, OID_sha1, OID_sha224, OID_sha256, OID_sha384, OID_sha512 }; for (int i = 0; i < 6; i++) { if (!vh_next()) continue; uint8_t b[64]; size_t bl; ENC2("x509_digest_algor", x509_digest_algor_to_der(DG[i], NULL, &dl_), x509_digest_algor_to_der(DG[i], &p_, &wl_), b, bl); const uint8_t *cp = b; size_t il = bl; int o = -1; vh_eval(vh_mix(i + 3001)); if (x509_digest_algor_from_der(&o, &cp, &il) != 1 || o != DG[i] || il) viol_rt("x509_digest_algor", "roundtrip", "\"oid\":%d", DG[i]); if (!der_tree_ok(b, bl, 0)) viol_rt("x509_digest_algor", "not-strict-der", "\"oid\":%d", DG[i]); }
 	static const int SG[] = { OID_sm2sign_with_sm3, OID_ecdsa_with_sha1, OID_ecdsa_with_sha256, OID_rsasign_with_sm3, OID_rsasign_with_sha256 }; for (int i = 0; i < 5; i++) { if (!vh_next()) continue; uint8_t b[64]; size_t bl; ENC2("x509_signature_algor", x509_signature_algor_to_der(SG[i], NULL, &dl_), x509_signature_algor_to_der(SG[i], &p_, &wl_), b, bl); const uint8_t *cp = b; size_t il = bl; int o = -1; vh_eval(vh_mix(i + 3101)); if (x509_signature_algor_from_der(&o, &cp, &il) != 1 || o != SG[i] || il) viol_rt("x509_signature_algor", "roundtrip", "\"oid\":%d", SG[i]); if (!der_tree_ok(b, bl, 0)) viol_rt("x509_signature_algor", "not-strict-der", "\"oid\":%d", SG[i]); }
+	/* all five algorithm-identifier families over EVERY identifier the library knows (discovered through the family's own name function, oid 1..399) */
+	for (int oid = 1; oid < 400; oid++) { if (!vh_next()) continue; uint8_t b[96]; size_t bl; const uint8_t *cp; size_t il; int o;
+		if (x509_digest_algor_name(oid) && ({ size_t l0_ = 0; x509_digest_algor_to_der(oid, NULL, &l0_) == 1; })) { ENC2("x509_digest_algor", x509_digest_algor_to_der(oid, NULL, &dl_), x509_digest_algor_to_der(oid, &p_, &wl_), b, bl); cp = b; il = bl; o = -1; vh_eval(vh_mix(oid + 3301)); if (x509_digest_algor_from_der(&o, &cp, &il) != 1 || o != oid || il) viol_rt("x509_digest_algor", "roundtrip", "\"oid\":%d,\"name\":\"%s\"", oid, x509_digest_algor_name(oid)); if (!der_tree_ok(b, bl, 0)) viol_rt("x509_digest_algor", "not-strict-der", "\"oid\":%d", oid); }
+		if (x509_signature_algor_name(oid) && ({ size_t l0_ = 0; x509_signature_algor_to_der(oid, NULL, &l0_) == 1; })) { ENC2("x509_signature_algor", x509_signature_algor_to_der(oid, NULL, &dl_), x509_signature_algor_to_der(oid, &p_, &wl_), b, bl); cp = b; il = bl; o = -1; vh_eval(vh_mix(oid + 3701)); if (x509_signature_algor_from_der(&o, &cp, &il) != 1 || o != oid || il) viol_rt("x509_signature_algor", "roundtrip", "\"oid\":%d,\"name\":\"%s\"", oid, x509_signature_algor_name(oid)); if (!der_tree_ok(b, bl, 0)) viol_rt("x509_signature_algor", "not-strict-der", "\"oid\":%d", oid); }
+		if (x509_public_key_encryption_algor_name(oid) && ({ size_t l0_ = 0; x509_public_key_encryption_algor_to_der(oid, NULL, &l0_) == 1; }) /* the writer only supports sm2encrypt: identifiers it refuses are not judged */) { ENC2("x509_public_key_encryption_algor", x509_public_key_encryption_algor_to_der(oid, NULL, &dl_), x509_public_key_encryption_algor_to_der(oid, &p_, &wl_), b, bl); cp = b; il = bl; o = -1; const uint8_t *pp; size_t ppl; vh_eval(vh_mix(oid + 4101)); if (x509_public_key_encryption_algor_from_der(&o, &pp, &ppl, &cp, &il) != 1 || o != oid || il) viol_rt("x509_public_key_encryption_algor", "roundtrip", "\"oid\":%d,\"name\":\"%s\"", oid, x509_public_key_encryption_algor_name(oid)); if (!der_tree_ok(b, bl, 0)) viol_rt("x509_public_key_encryption_algor", "not-strict-der", "\"oid\":%d", oid); }
+		if (x509_encryption_algor_name(oid) && ({ size_t l0_ = 0; uint8_t iv0_[16] = {0}; x509_encryption_algor_to_der(oid, iv0_, 16, NULL, &l0_) == 1; })) { uint8_t iv[16]; memset(iv, 0x5c, 16); ENC2("x509_encryption_algor", x509_encryption_algor_to_der(oid, iv, 16, NULL, &dl_), x509_encryption_algor_to_der(oid, iv, 16, &p_, &wl_), b, bl); cp = b; il = bl; o = -1; const uint8_t *gi; size_t gil; vh_eval(vh_mix(oid + 4501)); if (x509_encryption_algor_from_der(&o, &gi, &gil, &cp, &il) != 1 || o != oid || il || gil != 16 || memcmp(gi, iv, 16)) viol_rt("x509_encryption_algor", "roundtrip", "\"oid\":%d,\"name\":\"%s\"", oid, x509_encryption_algor_name(oid)); if (!der_tree_ok(b, bl, 0)) viol_rt("x509_encryption_algor", "not-strict-der", "\"oid\":%d", oid); }
+		if (x509_public_key_algor_name(oid)) { int curves[3] = { OID_sm2, OID_undef, OID_prime256v1 }; for (int ci = 0; ci < 3; ci++) { int cv = curves[ci]; uint8_t *p0 = NULL; size_t l0 = 0; if (x509_public_key_algor_to_der(oid, cv, &p0, &l0) != 1) continue; /* combination not supported */ ENC2("x509_public_key_algor", x509_public_key_algor_to_der(oid, cv, NULL, &dl_), x509_public_key_algor_to_der(oid, cv, &p_, &wl_), b, bl); cp = b; il = bl; o = -1; int gc = -7; vh_eval(vh_mix(oid * 4 + ci + 4901));
+				if (x509_public_key_algor_from_der(&o, &gc, &cp, &il) != 1 || o != oid || il) viol_rt("x509_public_key_algor", "roundtrip", "\"oid\":%d,\"name\":\"%s\",\"curve\":%d,\"enc\":\"%s\",\"left\":%zu", oid, x509_public_key_algor_name(oid), cv, vh_hex(b, bl), il); if (!der_tree_ok(b, bl, 0)) viol_rt("x509_public_key_algor", "not-strict-der", "\"oid\":%d,\"enc\":\"%s\"", oid, vh_hex(b, bl)); } } }
 	/* names over attribute subsets */
 	for (int mask = 1; mask < 64; mask++) { if (!vh_next()) continue; uint8_t nm[512], b[600]; size_t nl = 0, bl; if (!(mask & 1) || !(mask & 32)) continue; int r = x509_name_set(nm, &nl, sizeof nm, "CN", (mask & 2) ? "Beijing" : NULL, (mask & 4) ? "Haidian" : NULL, (mask & 8) ? "PKU" : NULL, (mask & 16) ? "CS" : NULL, (mask & 32) ? "Alice" : NULL); vh_eval(vh_mix(mask + 3201));
 		if (r != 1) { viol_rt("x509_name", "set-failed", "\"mask\":%d", mask); continue; } ENC2("x509_name", x509_name_to_der(nm, nl, NULL, &dl_), x509_name_to_der(nm, nl, &p_, &wl_), b, bl); const uint8_t *cp = b, *g; size_t il = bl, gl; if (x509_name_from_der(&g, &gl, &cp, &il) != 1 || il || gl != nl || memcmp(g, nm, nl)) viol_rt("x509_name", "roundtrip", "\"mask\":%d", mask); if (!der_tree_ok(b, bl, 0)) viol_rt("x509_name", "not-strict-der", "\"mask\":%d", mask); if (x509_name_check(nm, nl) != 1) viol_rt("x509_name", "own-output-fails-check", "\"mask\":%d", mask); }
